@@ -1390,7 +1390,7 @@ def _boundary_polyline(ctx, info):
         # edges written directly with the new indices: a wrap-around modulo the cycle length must not include the running offset
         carried = {au.increment(q)[0] for q in au.stmts(outer.body) if au.increment(q) is not None}
         bad = bad_global = None
-        val = S.canon(ea.args[0], ea, keep=tuple(carried))
+        val = S.canon(ea.args[0], ea, keep=tuple(carried) + (bound,))
         for n in ast.walk(val):
             if isinstance(n, ast.BinOp) and isinstance(n.op, ast.Mod):
                 r = n.right
@@ -1399,6 +1399,16 @@ def _boundary_polyline(ctx, info):
                 if is_len and any(isinstance(z, ast.Name) and z.id in carried and z.id != (vidx or "") for z in ast.walk(n.left)):
                     bad = n
                 if isinstance(r, ast.Name) and r.id in carried and r.id == off:
+                    bad_global = n
+                # modulus = (vertices collected so far) + ...: `len(polyline.vertices)` or the running offset is an additive term of the modulus
+                terms, todo = [], [r]
+                while todo:
+                    z = todo.pop()
+                    if isinstance(z, ast.BinOp) and isinstance(z.op, ast.Add):
+                        todo += [z.left, z.right]
+                    else:
+                        terms.append(z)
+                if len(terms) > 1 and any(au.src(z) == f"len({bound}.vertices)" or (isinstance(z, ast.Name) and z.id in carried and z.id == off) for z in terms):
                     bad_global = n
         if bad_global is not None:
             ctx.fail("C15-B1", esite, f"{name}: a polyline edge index wraps around modulo the running vertex offset, not modulo the length of the cycle",
@@ -1728,6 +1738,39 @@ def k1_corners(ctx):
                          "the angle of a vertex then includes the angles of all vertices visited before it")
                 return
     if acc is None:
+        # same accumulation written as  a = sum(angles[corner(v, T)] for T in vertex_to_faces(v))  [start 0], once per feature vertex
+        for q in lp.body:
+            if not (isinstance(q, ast.Assign) and len(q.targets) == 1 and isinstance(q.targets[0], ast.Name)):
+                continue
+            c = q.value
+            if not (isinstance(c, ast.Call) and au.call_tail(c) == "sum" and isinstance(c.func, ast.Name) and not c.keywords and 1 <= len(c.args) <= 2
+                    and isinstance(c.args[0], (ast.GeneratorExp, ast.ListComp)) and len(c.args[0].generators) == 1
+                    and (len(c.args) == 1 or au.const(c.args[1]) in (0, 0.0) and au.const(c.args[1]) is not None)):
+                continue
+            g = c.args[0].generators[0]
+            if g.ifs or g.is_async or not isinstance(g.target, ast.Name):
+                continue
+            T = g.target.id
+            seqc = S.canon(g.iter, q, keep=(v,))
+            if not (isinstance(seqc, ast.Call) and au.call_tail(seqc) in ("vertex_to_faces", "vertex_to_corners") and len(seqc.args) == 1 and H.is_name(seqc.args[0], v)):
+                continue
+            val = S.canon(c.args[0].elt, q, keep=(v, T))
+            if not isinstance(val, ast.Subscript):
+                continue
+            if au.call_tail(seqc) == "vertex_to_corners":
+                good = H.is_name(val.slice, T)
+            else:
+                good = isinstance(val.slice, ast.Call) and au.call_tail(val.slice) == "vertex_to_corner_in_face" and [au.src(a) for a in val.slice.args] == [v, T]
+                if isinstance(val.slice, ast.Call) and au.call_tail(val.slice) == "vertex_to_corner_in_face" and [au.src(a) for a in val.slice.args] == [T, v]:
+                    ctx.fail("C15-K1", ctx.site(FEAT, fn0, q), "_flag_corners: vertex_to_corner_in_face is called with (face, vertex) instead of (vertex, face)",
+                             "the corner looked up is not the corner of the feature vertex in the incident face")
+                    return
+            if good and sum(1 for z in au.stmts(fn.body) if any(q.targets[0].id in au.assigned_names(t) for t in au.assign_targets(z))) == 1:
+                acc = q.targets[0].id
+                angle_defs = [leaf for cs, leaf in hj_scope.ifexp_leaves(val.value)]
+                acc_ok = True
+                break
+    if acc is None:
         ctx.undecided("C15-K1", lsite, "_flag_corners: the accumulation of the corner angles around a feature vertex is not recognised", "")
         return
     stale = [d for d in angle_defs if isinstance(d, ast.Call) and au.call_tail(d) == "get_attribute"]
@@ -1743,6 +1786,13 @@ def k1_corners(ctx):
     arg = S.canon(call.args[0], s, keep=(v, acc))
     arg = hj_scope.fold_defaults(arg, ctx.repo, FEAT, DET) if False else arg
     p = _poly_tau(arg)
+    if acc not in p.atoms():
+        # the rounded leaf was resolved through the name of the sum: resolve it again keeping that name
+        again = [unwrap(leaf) for s2, t2, v2 in stores if s2 is s for cs, leaf in hj_scope.ifexp_leaves(S.canon(v2, s2, keep=(v, acc)))]
+        again = [l for l in again if isinstance(l, ast.Call) and au.call_tail(l) in ("round", "rint", "around") and l.args]
+        if len(again) == 1:
+            arg = again[0].args[0]
+            p = _poly_tau(arg)
     want = sym.Poly({tuple(sorted((acc, "<self.corner_order>"))): Fraction(1 / (2 * math.pi)).limit_denominator(10 ** 9)})
     if acc not in p.atoms():
         ctx.undecided("C15-K1", ctx.site(FEAT, fn0, s), "_flag_corners: the rounded quantity does not involve the summed angle", "")
